@@ -55,10 +55,13 @@ INVARIANT UpToDate
 
 
 # ----------------------------------------------------------------------------------- real runs
+CENTERS = [0.5, -1.0 / 3.0, 0.1 + 0.2]      # 0.5 - 0.5 gives a coordinate that is exactly 0.0
+
+
 def make_spec(workdir, names, points, tag):
     """points: list of dict name -> float (incl. the gate)"""
-    spec = dict(dir=workdir, model=f'm{tag}', names=names, gate='zz_gate',
-                start=[0.25] * len(names), centers=[0.1 + 0.2 if i % 2 == 0 else -1.0 / 3.0 for i in range(len(names))],
+    spec = dict(dir=workdir, model=f'm{tag}', names=names, gate='zz_gate', nan_param=('m_nan' if len(names) < 50 else None),
+                start=[0.25] * len(names), centers=[CENTERS[i] if len(names) == 3 else (0.1 + 0.2 if i % 2 == 0 else -1.0 / 3.0) for i in range(len(names))],
                 points=[{k: float(v).hex() for k, v in p.items()} for p in points], out=os.path.join(workdir, f'out-{tag}.json'),
                 restart_full=len(names) < 50)
     path = os.path.join(workdir, f'spec-{tag}.json')
@@ -207,7 +210,7 @@ def run_dry(case):
         outs = json.load(open(spec['out']))
         free = outs[0]['names']
         fvals = [float(o['f']) if 'f' in o else float('nan') for o in outs]
-        finite = [v == v and abs(v) != float('inf') for v in fvals]
+        finite = [v == v and abs(v) != float('inf') and o.get('gfinite', True) for v, o in zip(fvals, outs)]
         distinct = sorted({v for v, f in zip(fvals, finite) if f})
         rank = [distinct.index(v) + 1 if f else 1 for v, f in zip(fvals, finite)]
         calls = [dict(pid=c['pid'], sys=c['sys'], text=c['text'], target=c['target']) for c in parse_log(log, iter_name)]
@@ -304,6 +307,8 @@ def sequences(quick, seed):
 
     rng = random.Random(seed)
     base = [[(1, True), (3, True), (2, True)],                # the defect of the unchanged tree: -17, -8, -8.75
+            [(2, True), (3, 'zero'), (1, True)],              # the best point has a coordinate that is exactly 0.0
+            [(2, True), (3, 'nan-gradient'), (1, True)],      # finite value, NaN in the gradient of a parameter that is not the first
             [(2, True), (2, True), (1, True), (3, True)],     # tie, worse, better
             [(2, False), (1, True), (3, False), (2, True)]]   # non-finite first and in the middle
     allseq = [list(s) for n in (1, 2, 3) for s in itertools.product([(1, True), (2, True), (3, True), (2, False)], repeat=n)]
@@ -314,8 +319,8 @@ def sequences(quick, seed):
 
 def realise(seq):
     """points (name -> float) whose log likelihoods are ordered like the levels"""
-    names = ['b2', 'B10', 'a_mid']      # appearance order differs from the sorted order: B10 < a_mid < b2 < zz_gate
-    centers = [0.1 + 0.2, -1.0 / 3.0, 0.1 + 0.2]
+    names = ['b2', 'B10', 'a_mid']      # appearance order differs from the sorted order: B10 < a_mid < b2 < m_nan < zz_gate
+    centers = CENTERS
     dist = {3: 0.5, 2: 1.5, 1: 2.75}
     used = {}
     pts = []
@@ -326,6 +331,13 @@ def realise(seq):
         coord = (n // 2) % 3
         p = {nm: centers[i] for i, nm in enumerate(names)}
         p[names[coord]] = centers[coord] + sign * dist[lvl] + (n // 6) * 1e-9
+        p['m_nan'] = 1.0
+        if fin == 'zero':
+            p = {nm: centers[i] for i, nm in enumerate(names)}
+            p['b2'] = centers[0] - dist[3]          # exactly 0.0
+            p['m_nan'] = 1.0
+        if fin == 'nan-gradient':
+            p['m_nan'] = 0.0
         p['zz_gate'] = 1.0 if fin else -1.0
         pts.append(p)
     return names, pts
